@@ -340,4 +340,60 @@ def layout_130316 : List PubField := [
   ⟨"Temperature", 24, 24, false, 1, 3, .param "ActualTemperature"⟩,
   ⟨"Set Temperature", 48, 16, false, 1, 1, .param "SetTemperature"⟩]
 
+
+/-! ## Published code points of the enumerated fields (frozen)
+
+`(library enumerator, published numeric code)`: the code is the number the public lookup table of the field gives
+for the MEANING of the enumerator (canboat-style lookups: WIND_REFERENCE, TEMPERATURE_SOURCE, …); "error" and
+"not available" are the two highest codes of the field. Written as numeric literals, never via the library's
+enumeration, so an exchanged pair of enumerators in `N2kTypes.h` (which setter and parser would share) is caught. -/
+def enum_TimeSource : List (String × Nat) := [("N2ktimes_GPS", 0), ("N2ktimes_GLONASS", 1), ("N2ktimes_RadioStation", 2),
+  ("N2ktimes_LocalCesiumClock", 3), ("N2ktimes_LocalRubidiumClock", 4), ("N2ktimes_LocalCrystalClock", 5)]
+def enum_RudderDirectionOrder : List (String × Nat) := [("N2kRDO_NoDirectionOrder", 0), ("N2kRDO_MoveToStarboard", 1),
+  ("N2kRDO_MoveToPort", 2), ("N2kRDO_Unavailable", 7)]
+def enum_HeadingReference : List (String × Nat) := [("N2khr_true", 0), ("N2khr_magnetic", 1), ("N2khr_error", 2), ("N2khr_Unavailable", 3)]
+def enum_FluidType : List (String × Nat) := [("N2kft_Fuel", 0), ("N2kft_Water", 1), ("N2kft_GrayWater", 2), ("N2kft_LiveWell", 3),
+  ("N2kft_Oil", 4), ("N2kft_BlackWater", 5), ("N2kft_FuelGasoline", 6), ("N2kft_Error", 14), ("N2kft_Unavailable", 15)]
+def enum_SpeedWaterReferenceType : List (String × Nat) := [("N2kSWRT_Paddle_wheel", 0), ("N2kSWRT_Pitot_tube", 1),
+  ("N2kSWRT_Doppler_log", 2), ("N2kSWRT_Ultra_Sound", 3), ("N2kSWRT_Electro_magnetic", 4), ("N2kSWRT_Error", 254), ("N2kSWRT_Unavailable", 255)]
+def enum_GNSStype : List (String × Nat) := [("N2kGNSSt_GPS", 0), ("N2kGNSSt_GLONASS", 1), ("N2kGNSSt_GPSGLONASS", 2),
+  ("N2kGNSSt_GPSSBASWAAS", 3), ("N2kGNSSt_GPSSBASWAASGLONASS", 4), ("N2kGNSSt_Chayka", 5), ("N2kGNSSt_integrated", 6),
+  ("N2kGNSSt_surveyed", 7), ("N2kGNSSt_Galileo", 8)]
+def enum_GNSSmethod : List (String × Nat) := [("N2kGNSSm_noGNSS", 0), ("N2kGNSSm_GNSSfix", 1), ("N2kGNSSm_DGNSS", 2),
+  ("N2kGNSSm_PreciseGNSS", 3), ("N2kGNSSm_RTKFixed", 4), ("N2kGNSSm_RTKFloat", 5), ("N2kGNSSm_Error", 14), ("N2kGNSSm_Unavailable", 15)]
+def enum_XTEMode : List (String × Nat) := [("N2kxtem_Autonomous", 0), ("N2kxtem_Differential", 1), ("N2kxtem_Estimated", 2),
+  ("N2kxtem_Simulator", 3), ("N2kxtem_Manual", 4)]
+def enum_DistanceCalculationType : List (String × Nat) := [("N2kdct_GreatCircle", 0), ("N2kdct_RhumbLine", 1)]
+def enum_GNSSDOPmode : List (String × Nat) := [("N2kGNSSdm_1D", 0), ("N2kGNSSdm_2D", 1), ("N2kGNSSdm_3D", 2), ("N2kGNSSdm_Auto", 3),
+  ("N2kGNSSdm_Error", 6), ("N2kGNSSdm_Unavailable", 7)]
+def enum_WindReference : List (String × Nat) := [("N2kWind_True_North", 0), ("N2kWind_Magnetic", 1), ("N2kWind_Apparent", 2),
+  ("N2kWind_True_boat", 3), ("N2kWind_True_water", 4), ("N2kWind_Error", 6), ("N2kWind_Unavailable", 7)]
+def enum_TempSource : List (String × Nat) := [("N2kts_SeaTemperature", 0), ("N2kts_OutsideTemperature", 1), ("N2kts_InsideTemperature", 2),
+  ("N2kts_EngineRoomTemperature", 3), ("N2kts_MainCabinTemperature", 4), ("N2kts_LiveWellTemperature", 5), ("N2kts_BaitWellTemperature", 6),
+  ("N2kts_RefridgerationTemperature", 7), ("N2kts_HeatingSystemTemperature", 8), ("N2kts_DewPointTemperature", 9),
+  ("N2kts_ApparentWindChillTemperature", 10), ("N2kts_TheoreticalWindChillTemperature", 11), ("N2kts_HeatIndexTemperature", 12),
+  ("N2kts_FreezerTemperature", 13), ("N2kts_ExhaustGasTemperature", 14), ("N2kts_ShaftSealTemperature", 15)]
+def enum_HumiditySource : List (String × Nat) := [("N2khs_InsideHumidity", 0), ("N2khs_OutsideHumidity", 1), ("N2khs_Undef", 255)]
+def enum_PressureSource : List (String × Nat) := [("N2kps_Atmospheric", 0), ("N2kps_Water", 1), ("N2kps_Steam", 2), ("N2kps_CompressedAir", 3),
+  ("N2kps_Hydraulic", 4), ("N2kps_Filter", 5), ("N2kps_AltimeterSetting", 6), ("N2kps_Oil", 7), ("N2kps_Fuel", 8),
+  ("N2kps_Reserved", 253), ("N2kps_Error", 254), ("N2kps_Unavailable", 255)]
+def enum_PGNList : List (String × Nat) := [("N2kpgnl_transmit", 0), ("N2kpgnl_receive", 1)]
+
+/-- which published field carries which enumeration: (table id, published field name, enumeration table); in a
+field narrower than the code (a 2-bit humidity source) the code is cut to the field, NA staying all ones -/
+def enumFields : List (String × String × String) := [
+  ("126992", "Source", "enum_TimeSource"), ("127245", "Direction Order", "enum_RudderDirectionOrder"),
+  ("127250", "Reference", "enum_HeadingReference"), ("127505", "Type", "enum_FluidType"),
+  ("128259", "Speed Water Referenced Type", "enum_SpeedWaterReferenceType"), ("129026", "COG Reference", "enum_HeadingReference"),
+  ("129029", "GNSS type", "enum_GNSStype"), ("129029", "Method", "enum_GNSSmethod"), ("129029_t", "Reference Station Type", "enum_GNSStype"),
+  ("129283", "XTE mode", "enum_XTEMode"), ("129284", "Course/Bearing reference", "enum_HeadingReference"),
+  ("129284", "Calculation Type", "enum_DistanceCalculationType"), ("129539", "Desired Mode", "enum_GNSSDOPmode"),
+  ("129539", "Actual Mode", "enum_GNSSDOPmode"), ("130306", "Reference", "enum_WindReference"),
+  ("130311", "Temperature Source", "enum_TempSource"), ("130311", "Humidity Source", "enum_HumiditySource"),
+  ("130312", "Source", "enum_TempSource"), ("130313", "Source", "enum_HumiditySource"), ("130314", "Source", "enum_PressureSource"),
+  ("130316", "Source", "enum_TempSource")]
+
+/-- every published (enumerator, code) is declared with exactly that code in the headers read on this run -/
+def enumAgrees (spec gen : List (String × Nat)) : Bool := spec.all fun nc => gen.contains nc
+
 end N2k.Spec
